@@ -400,7 +400,7 @@ class Hang(Exception):
 
 
 class time_limit:
-    """`with time_limit(5): impl_call()` -- raises Hang in the main thread when the call takes longer (SIGALRM; a no-op
+    """`with time_limit(5): impl_call()` -- raises Hang in the main thread when the call takes longer (SIGVTALRM; a no-op
     outside the main thread).  Generated cases are tiny: a call that needs seconds is a loop that does not terminate."""
 
     hangs = 0            # after a few hangs the limit shrinks: the cases are tiny, a healthy call takes well under a millisecond
@@ -415,15 +415,17 @@ class time_limit:
         if threading.current_thread() is threading.main_thread():
             def on_alarm(signum, frame):
                 time_limit.hangs += 1
-                raise Hang("no return within %s s" % self.seconds)
-            self.old = signal.signal(signal.SIGALRM, on_alarm)
-            signal.setitimer(signal.ITIMER_REAL, self.seconds)
+                raise Hang("no return within %s s of CPU time" % self.seconds)
+            # CPU time of this process, not wall time: a loop that does not terminate burns CPU; a call that is merely not
+            # scheduled on a loaded machine does not
+            self.old = signal.signal(signal.SIGVTALRM, on_alarm)
+            signal.setitimer(signal.ITIMER_VIRTUAL, self.seconds)
             self.armed = True
         return self
 
     def __exit__(self, *a):
         if self.armed:
             import signal
-            signal.setitimer(signal.ITIMER_REAL, 0)
-            signal.signal(signal.SIGALRM, self.old)
+            signal.setitimer(signal.ITIMER_VIRTUAL, 0)
+            signal.signal(signal.SIGVTALRM, self.old)
         return False
